@@ -3,7 +3,7 @@
 cd /verif
 mkdir -p /tmp/matrix
 for d in seeded/C*/; do n=$(basename $d); p=${n%-*}; extra=""
-  case $n in C09-b) extra="C01";; C14-a) extra="C11";; C15-b|C15-e|C15-f|C13-e) extra="C12";; C05-c) extra="C08";; C11-d) extra="C10";; C06-c) extra="C07";; C20-h) extra="C15";; C03-g) extra="C02 C20";; C15-h) extra="C14";; C15-i) extra="C11 C14";; C10-i) extra="C06 C07";; C03-i) extra="C09";; C14-i) extra="C11";; C02-i) extra="C03";; C03-j) extra="C01 C09";; C06-j) extra="C07";; C14-j) extra="C11";; C20-j) extra="C06";; esac
+  case $n in C09-b) extra="C01";; C14-a) extra="C11";; C15-b|C15-e|C15-f|C13-e) extra="C12";; C05-c) extra="C08";; C11-d) extra="C10";; C06-c) extra="C07";; C20-h) extra="C15";; C03-g) extra="C02 C20";; C15-h) extra="C14";; C15-i) extra="C11 C14";; C10-i) extra="C06 C07";; C03-i) extra="C09";; C14-i) extra="C11";; C02-i) extra="C03";; C03-j) extra="C01 C09";; C06-j) extra="C07";; C14-j) extra="C11";; C20-j) extra="C06";; C06-k) extra="C19";; esac
   for c in $p $extra; do
     VERIF_WORKERS=8 LINES_MAX=3 tools/mutant.sh /verif/$d/patch.diff $c > /tmp/matrix/$n.$c.txt 2>&1
   done
